@@ -42,7 +42,8 @@ func (m *DelegationRewardsMethod) Run(evm *vm.EVM, contract *vm.Contract) ([]byt
 		return nil, err
 	}
 	stateDB := evm.StateDB.(types.ExtStateDB)
-	cacheCtx := stateDB.Context()
+	// IncrementValidatorPeriod writes; a query must not leave anything behind (same as the distribution gRPC query)
+	cacheCtx, _ := stateDB.Context().CacheContext()
 
 	valAddr := args.GetValidator()
 	validator, err := m.stakingKeeper.GetValidator(cacheCtx, valAddr)
